@@ -4,11 +4,15 @@ the Euler/quaternion N blocks are the Rotation.h helpers regenerated from source
 Theorems: coq/Props/Properties_C05*.v (rotation, documented forms, X_FM jets = meaning of the speeds, reversed = inverse,
 fit round trips).  Tie: correspondence on single-mobilizer systems (harness/C05_probe.cpp vs the extracted catalogue):
 getMobilizerTransform / getMobilizerVelocity / getH_FMCol for all 17 types x forward/Reverse x quaternion/Euler, and
-setQToFitTransform / setUToFitVelocity round trips on the implementation."""
+setQToFitTransform / setUToFitVelocity round trips on the implementation; the four PARTIAL fits (setQToFitRotation,
+setQToFitTranslation, setUToFitAngularVelocity, setUToFitLinearVelocity) from a second random coordinate/speed set against the
+modelled per-mobilizer partial fitters and reversal wrappers (tags PFR PFT PFW PFL).  harness/C05_search.cpp (always run):
+implementation-only predicates incl. partial-fit sequences."""
 import os, collections
 from vlib import *
 
-PROPS = ['Props/Properties_C05.v', 'Props/Properties_C05_jets.v', 'Props/Properties_C05_wave2.v', 'Props/Properties_C05_fit.v']   # compiled in parallel
+PROPS = ['Props/Properties_C05.v', 'Props/Properties_C05_jets.v', 'Props/Properties_C05_wave2.v', 'Props/Properties_C05_fit.v',
+         'Props/Properties_C05_partial.v']   # compiled in parallel
 TYPES = ["Pin", "Slider", "Universal", "Cylinder", "BendStretch", "Planar", "Gimbal", "Bushing", "Ball", "Free",
          "Translation", "Screw", "Ellipsoid", "LineOrientation", "FreeLine", "SphericalCoords", "Weld"]
 EXTRACT = '''From Coq Require Import Extraction ExtrOcamlBasic.
@@ -134,11 +138,11 @@ def run(ctx):
     ctx.cov['rule'] = ('single-mobilizer systems, type cycling over the 17 built-in mobilizers, random direction (forward/Reverse), random '
                        'quaternion/Euler option, identity or random X_PF/X_BM, random options (Screw pitch, Ellipsoid radii incl. spheres, '
                        'SphericalCoords offsets/signs/axis); angles in +-[0.1,1.2] (|cos q1| > 0.36), unit quaternions, u in [-1,1]; '
-                       'compared: getMobilizerTransform, getMobilizerVelocity, every getH_FMCol (rel 1e-9), fit round trips (1e-8); '
+                       'compared: getMobilizerTransform, getMobilizerVelocity, every getH_FMCol (rel 1e-9), fit round trips and the four partial fits from a second random q2/u2 (1e-8); '
                        'non-trivial = distinct (type, direction, mode)')
     ctx.assumptions += ['theorems are over the reals (ROps); binary64 rounding is covered only by the tolerance-based correspondence',
                         'the catalogue is hand-written from the public documentation; Ellipsoid point rule (p = radii .* Mz) is taken from the implementation header since the public header only says "on the surface"',
                         'atan2-based fitters are modelled with Ratan2 (built from atan); theorems about them are restricted to the regular branch']
-    if ctx.broken or ctx.tier == 'thorough':
-        search(ctx, 17 * (60 if ctx.tier == 'quick' else 600))
+    # the implementation-side predicates (incl. the partial-fit sequences) are cheap and independent of the model: always evaluated
+    search(ctx, 17 * (60 if ctx.tier == 'quick' else 600))
     ctx.finish()
